@@ -539,3 +539,22 @@ Theorem C11_segmenter_lazy_total : forall (f : pfile) (trs : list itrack) d ivss
                               Forall (fun o => o <> []) res) trs ivss.
 Proof. exact plan_lazy_total. Qed.
 Print Assumptions C11_segmenter_lazy_total.
+
+(* the EMPTY fragment: CreateFragment + Encode without trun optimisation (the resegmenter's configuration) succeeds
+   and every reader gets no samples from it; so Resegment's total statement covers EVERY output segment, the
+   possibly empty first one included *)
+Theorem C11_write_segment_empty : forall T pos0, pos0 < 4611686018427387904 ->
+  exists fe, write_segment false T [] = Ok fe /\ forall tx : C05Model.trex, read_back tx pos0 [] fe = Ok [].
+Proof. exact write_segment_empty. Qed.
+Print Assumptions C11_write_segment_empty.
+
+Theorem C11_resegment_total_all :
+  forall d (ss : list C11Model.fsample) segs T pos0 (tx : C05Model.trex),
+  contiguous_list ss = true -> times_fit ss -> 16 * lenN ss + bytes_of ss + 200 < 2147483648 ->
+  tx_track tx = T -> pos0 < 4611686018427387904 ->
+  resegment d ss = Ok segs ->
+  exists fes outs,
+    Forall2 (fun seg fe => write_segment false T (map to_full seg) = Ok fe) segs fes /\
+    read_all (read_back tx pos0 []) fes = Ok outs /\ concat outs = map to_full ss.
+Proof. exact resegment_total_all. Qed.
+Print Assumptions C11_resegment_total_all.
